@@ -67,6 +67,19 @@ def overlay_map():
         pkg = os.path.basename(d).replace("__", "/")
         for f in sorted(glob.glob(os.path.join(d, "*.go"))):
             rep[os.path.join(REPO, pkg, "zz_verif_" + os.path.basename(f))] = f
+    # registry of every type declared in cdr/cdrType (regenerated from the working tree)
+    reg = os.path.join(BUILD, "zz_registry_%s.go" % REPO_KEY)
+    names = []
+    for f in sorted(glob.glob(os.path.join(REPO, "cdr", "cdrType", "*.go"))):
+        for m in re.finditer(r"^type\s+([A-Z]\w*)\s", open(f).read(), flags=re.M):
+            names.append(m.group(1))
+    names = sorted(set(names))
+    body = "//go:build verif\n\npackage main\n\nimport (\n\t\"reflect\"\n\n\t\"github.com/free5gc/chf/cdr/cdrType\"\n)\n\n" \
+           "var cdrTypeNames = []string{%s}\n\nvar cdrTypes = map[string]reflect.Type{\n%s}\n" % (
+               ", ".join('"%s"' % n for n in names),
+               "".join('\t"%s": reflect.TypeOf(cdrType.%s{}),\n' % (n, n) for n in names))
+    write_if_changed(reg, body)
+    rep[os.path.join(REPO, "cmd", "verifharness", "zz_registry.go")] = reg
     fake = os.path.join(HARNESS_SRC, "fake", "mongoapi.go")
     if os.path.exists(fake):
         rep[os.path.join(module_dir("github.com/free5gc/util"), "mongoapi", "mongoapi.go")] = fake
